@@ -103,6 +103,12 @@ func (x *Exec) dependsOnRequest(v Value) bool {
 			return walk(a.NS, depth+1)
 		case *formVals, *headerVals:
 			return true
+		case *Native:
+			// key material and signers built from it come from the storage at request time
+			switch a.Kind {
+			case "xmlsigner", "privkey", "pubkey":
+				return true
+			}
 		}
 		return false
 	}
